@@ -61,6 +61,10 @@ DB = {
     (1, 3, 6, 1, 2, 1, 2, 1, 0): ("int", 7),
     (1, 3, 6, 1, 2, 1, 4, 20, 1, 1): ("ip", b"\x0a\x00\x00\x01"),
     (1, 3, 6, 1, 2, 1, 31, 1, 1, 1, 6, 1): ("c64", 2**40 + 5),
+    # the device's own usmStats counters are ordinary objects a caller may read: a
+    # response that carries them is data like any other and needs the same protection
+    (1, 3, 6, 1, 6, 3, 15, 1, 1, 3, 0): ("c32", 1742),
+    (1, 3, 6, 1, 6, 3, 15, 1, 1, 5, 0): ("c32", 58),
 }
 KEYS = sorted(DB)
 OPS = ("get", "multiget", "getnext", "bulkget", "set")
@@ -454,6 +458,12 @@ def targets(tier):
             for op in OPS:
                 for var in (0, 1, 2):
                     out.append((lv, op, var, 0, True))
+    # reads of the device's own usmStats counters (the last two objects of DB): the
+    # response looks like the payload of an error indication but is ordinary data
+    # (forgeries and attacks only)
+    for lv in levels:
+        for var in (len(KEYS) - 2, len(KEYS) - 1):
+            out.append((lv, "get", var, 0, False))
     # walks: the attacker tampers with the second exchange (forgeries and attacks only)
     for lv in levels:
         for op in ("walk", "bulkwalk", "walk-warn", "multiwalk-warn"):
